@@ -118,6 +118,7 @@ impl AtomicIncrementalAverage64 {
                 let (current_counter, current_average) = AtomicIncrementalAverage64::split_joined(current_joined);
                 let (new_counter, new_average) = computation(current_counter, current_average);
                 let new_joined = AtomicIncrementalAverage64::join_split(new_counter, new_average);
+                #[cfg(feature = "verif")] crate::verif::point(crate::verif::AVG_BETWEEN_LOAD_AND_CAS);
                 match self.joined.compare_exchange(current_joined, new_joined, store_ordering, load_ordering) {
                     Err(reloaded_current_joined) => current_joined = reloaded_current_joined,
                     Ok(_) => break,
